@@ -410,6 +410,11 @@ impl ReceiveChannelReliable {
             .entry(slice.message_id)
             .or_insert_with(|| SliceConstructor::new(slice.message_id, slice.num_slices));
 
+        if slice_constructor.num_slices != slice.num_slices {
+            // The memory reserved for this message was computed from the first slice received
+            return Err(ChannelError::InvalidSliceMessage);
+        }
+
         if let Some(message) = slice_constructor.process_slice(slice.slice_index, &slice.payload)? {
             // Memory usage is re-added with the exactly message size
             self.memory_usage_bytes -= slice.num_slices * SLICE_SIZE;
